@@ -477,12 +477,23 @@ pub fn run(tier: Tier, seed: u64) -> i32 {
         })
         .collect();
     let nstates = roots.len();
-    let (alpha2, d2): (&[Op], usize) = match tier {
-        Tier::Quick => (&a, 2),
-        Tier::Thorough => (&a, 3),
+    // all suffixes of length 2 from every state; thorough: length 3 from the states with <= 2 files
+    let small: Vec<Node> = if tier == Tier::Thorough {
+        roots
+            .iter()
+            .filter(|n| n.abs.len() <= 2)
+            .map(|n| Node { parser: n.parser.clone(), abs: n.abs.clone(), hist: n.hist.clone() })
+            .collect()
+    } else {
+        Vec::new()
     };
-    ex.explore(roots, alpha2, d2);
-    stats.space(json!({"space": "all suffixes from every reachable abstract state", "abstract_states": nstates, "suffix_length": d2, "operations": alpha2.len()}));
+    let nsmall = small.len();
+    ex.explore(roots, &a, 2);
+    stats.space(json!({"space": "all suffixes of length 2 from every reachable abstract state", "abstract_states": nstates, "operations": a.len()}));
+    if !small.is_empty() {
+        ex.explore(small, &a, 3);
+        stats.space(json!({"space": "all suffixes of length 3 from the abstract states with <= 2 files", "abstract_states": nsmall, "operations": a.len()}));
+    }
     eprintln!("  suffixes from {nstates} states: t={:.1}s", stats.elapsed());
     let distinct_states = ex.expected.lock().unwrap().len();
     let distinct_obs: std::collections::HashSet<u64> = ex
